@@ -149,3 +149,18 @@ _ROUND4['C18'] += ' (R18e = C09-R09b): the exporter advances its file entry inde
 _ROUND4['C20'] = 'R20c also covers early returns of the owner task through the ? operator.'
 for _k, _v in _ROUND4.items():
     CLAIMS[_k]['text'] += ' ' + _v
+
+# technique fields kept current with the evaluators added in rounds 4-5
+_TECH = {
+    'C03': '; path-sensitive dataflow over linear forms for the chunker (length tracking, size rules per path)',
+    'C04': '; path-sensitive dataflow over linear forms on every acyclic MIR path of Chunker::next (buffered length == tracked length; skip, window and forced-cut rules per path)',
+    'C15': '; path-sensitive dataflow over linear forms for the chunk size bounds (= C04); push/size-add pairing on every path',
+    'C09': '; position accounting of shard writers (per-write / per-loop byte counts vs the recorded position); full-width bookend comparison',
+    'C10': '; position accounting of set_operation; operand identity of the merge comparison (full hashes)',
+    'C07': '; sibling cross-check of end-exclusive range validation (comparison-operator census); fill-loop cursor rule',
+    'C05': '; whole-value provenance of the answer returned by the shard-level query',
+    'C13': '; must-pass-through of remove_item on miss/retry paths after a find',
+}
+for _k, _v in _TECH.items():
+    if _v not in CLAIMS[_k]['technique']:
+        CLAIMS[_k]['technique'] += _v
